@@ -30,6 +30,8 @@ def correspondence(ctx):
         cases.append(f'rules|um|case|{hexs(s_)}')
     for s_ in structured_strings(ctx, 800 if ctx.tier == 'quick' else 10000, ['filler_ascii', 'filler_2', 'filler_3', 'filler_4', 'cased', 'cased', 'cased', 'marks', 'wide']):
         cases.append(f'rules|um|case|{hexs(s_)}')
+    for s_ in product_strings(ctx, extra_long=False):
+        cases.append(f'rules|um|case|{hexs(s_)}')
     cases += fuzz_cases(ctx, {6})      # coverage-guided search of the tree under check (only when the source changed / thorough)
     res = run_cases(cases, ctx.work)
     mset = set(mapped)
